@@ -647,6 +647,7 @@ class NoteEvent(EventType, partial_events=(
         # The detuned frequency is what is sent as freq, the keys given by
         # the user are left as they were so the event can be played again.
         freq = self.get('freq', self)
+        own_params = 'msg_params' in self  # Given, or kept from a play.
         self['freq'] = self._detuned_freq()  # Before _get_msg_params.
         try:
             param_list = self._get_msg_params()  # Populates synth_desc.
@@ -655,6 +656,10 @@ class NoteEvent(EventType, partial_events=(
                 del self['freq']
             else:
                 self['freq'] = freq
+        if not own_params:
+            # Kept when the event has played (below): the list built for a
+            # play that fails must not pass for a list given by the user.
+            self.pop('msg_params', None)
         instrument = self._synthdef_name()
         self['server'] = server = self('server')
 
@@ -672,6 +677,7 @@ class NoteEvent(EventType, partial_events=(
                 server.latency + self('sustain'),
                 ['/n_set', node_id, 'gate', 0])
 
+        self['msg_params'] = param_list
         self['is_playing'] = True
 
 
